@@ -11,7 +11,7 @@ From Verif Require Import Common.Base Model.SampleBuilder Model.SampleBuilderSpe
   Proofs.SampleBuilderArith Proofs.SampleBuilderIter Proofs.SampleBuilder
   Proofs.SampleBuilderScan Proofs.SampleBuilderBuild Proofs.SampleBuilderFuel Proofs.SampleBuilderFifo
   Proofs.SampleBuilderNoPanic Proofs.SampleBuilderTop Proofs.SampleBuilderInside
-  Proofs.SampleBuilderOrder Proofs.SampleBuilderOnce Proofs.SampleBuilderTop2.
+  Proofs.SampleBuilderOrder Proofs.SampleBuilderOnce Proofs.SampleBuilderComplete Proofs.SampleBuilderTop2.
 Open Scope N_scope.
 
 (* ---------- uint16 / uint32 arithmetic, all values ---------- *)
@@ -377,15 +377,46 @@ Proof.
 Qed.
 Print Assumptions c31_complete_long_frame_refuted.
 
+(* What is proved: the case d = 0.  A loss-free stream of well-formed frames pushed in
+   sequence order, with Pops anywhere in between and no Flush before the end, no frame
+   longer than maxLate, no max-time-delay, every payload accepted by Unmarshal: after
+   Flush, one Pop per frame returns every frame.  (delivers 0 makes the pushes the
+   stream itself, so first_pushed_is_lowest holds.)  Any maxLate, any depacketizer.
+   The proof describes the state after k pushes against the stream: the buffer holds
+   exactly the packets lo .. k-1, filled = [seq lo, seq k), the frames before a frame
+   boundary a (lo <= a <= k) are built in order, and the active window is empty or
+   [seq a, seq x) with a < x <= k; Flush builds the remaining frames and leaves no
+   partition head behind. *)
+Theorem c31_complete_inorder_partial : forall is_head is_tail unmarshal c fs ops,
+  stream_ok is_head is_tail fs -> delivers 0 fs ops ->
+  c_maxLateTs c = 0 ->
+  (forall f, In f fs -> N.of_nat (List.length f) <= c_maxLate c) ->
+  (forall p, In p (concat fs) -> unmarshal (p_payload p) <> None) ->
+  all_frames_emitted fs
+    (snd (run is_head is_tail unmarshal c (ops ++ OFlush :: repeat OPop (List.length fs)))).
+Proof. exact complete_inorder. Qed.
+Print Assumptions c31_complete_inorder_partial.
+
+(* its premises hold of four frames (3, 3, 3, 1 packets) across the sequence-number wrap,
+   pushed in order with a Pop after every Push, maxLate 50 *)
+Example c31_complete_inorder_nontrivial :
+  stream_ok fk_is_head fk_is_tail w_inorder_frames /\ delivers 0 w_inorder_frames w_inorder_ops /\
+  (forall f, In f w_inorder_frames -> N.of_nat (List.length f) <= c_maxLate (wcfg 50)) /\
+  (forall p, In p (concat w_inorder_frames) -> fk_unmarshal (p_payload p) <> None).
+Proof. exact w_inorder_premises. Qed.
+
 (* Not proved (planned_not_proved; the "complete-*" classes of the harness check it on every
-   generated stream, 4 <= 2 d + 4 <= maxLate, frames of 1..6 packets, maxLate >= 16):
+   generated stream, 4 <= 2 d + 4 <= maxLate, frames of 1..6 packets, maxLate >= 16): the
+   statement with reordering,
      c31_complete_partial :
        forall c fs ops d len, stream_ok fs -> delivers d fs ops ->
-         Forall (fun f => length f <= len) fs ->
-         N.of_nat (len + d) <= c_maxLate c (as far as tested; 2 d + len + 4 <= maxLate to be safe) ->
+         Forall (fun f => length f <= len) fs -> N.of_nat (len + d) <= c_maxLate c ->
          c_maxLateTs c = 0 -> c_maxLate c <> 1 -> first_pushed_is_lowest fs ops ->
+         (forall p, In p (concat fs) -> unmarshal (p_payload p) <> None) ->
          all_frames_emitted fs (snd (run ... (ops ++ OFlush :: repeat OPop (length fs)))).
-   The guard is sufficient as far as tested, not necessary: *)
+   (bound len + d <= maxLate as far as tested on the model; with d > 0 the buffer has holes and
+   the state is no longer a contiguous run of the stream, which is what the proof above uses.)
+   The guard first_pushed_is_lowest is sufficient as far as tested, not necessary: *)
 Example c31_complete_without_early_pop :
   all_frames_emitted w_frames
     (snd (run fk_is_head fk_is_tail fk_unmarshal (wcfg 50)
